@@ -73,9 +73,26 @@ func c16FsFault(c *core.Ctx) {
 				io.Copy(io.Discard, rd)
 				rd.Close()
 			}
-			b.mu.Lock()
-			ev := append([]string{}, b.deleted...)
-			b.mu.Unlock()
+			// deleted events are dispatched asynchronously: give every message that has left the listing up to 3 s to be announced
+			var ev []string
+			for deadline := time.Now().Add(3 * time.Second); ; time.Sleep(time.Millisecond) {
+				b.mu.Lock()
+				ev = append([]string{}, b.deleted...)
+				b.mu.Unlock()
+				got := map[string]bool{}
+				for _, e := range ev {
+					got[e[strings.LastIndex(e, "/")+1:]] = true
+				}
+				missing := false
+				for id := range listed {
+					if !now[id] && !got[id] {
+						missing = true
+					}
+				}
+				if !missing || time.Now().After(deadline) {
+					break
+				}
+			}
 			seen := map[string]int{}
 			for _, e := range ev {
 				id := e[strings.LastIndex(e, "/")+1:]
